@@ -13,6 +13,7 @@ FILES = {
     "OSq.Proofs.Compose": {"C02": None, "C14": ["OSq.compose_name"]},
     "OSq.Proofs.MergeStruct": {"C02": None, "C14": None},
     "OSq.Proofs.MergeAbstract": {"C02": None},
+    "OSq.Proofs.MergeReal": {"C02": None, "C14": None},
     "OSq.Proofs.Remap": {"C03": None, "C05": ["OSq.remap_spec", "OSq.remap_fail_unchanged"], "C20": ["OSq.Stmt.qubitArgs_mapQubits", "OSq.Stmt.eraseQubits_mapQubits"], "C17": ["OSq.heap_remap_other"]},
     "OSq.Proofs.Writer": {"C04": ["OSq.mkComment", "OSq.writeStmt", "OSq.writeCircuit", "OSq.rstripNl"], "C12": ["OSq.exportV1"], "C20": ["OSq.writeStmt_gate_form", "OSq.exportV1Stmt_gate_form"]},
     "OSq.Proofs.FloatFmt": {"C04": None},
